@@ -247,7 +247,7 @@ func (s *SubQuery) SQL() string {
 	return "(" + s.Query.SQL() + ")"
 }
 
-func (s *StarModifierExcept) SQL() string { return "EXCEPT (" + sqlJoin(s.Columns, " ") + ")" }
+func (s *StarModifierExcept) SQL() string { return "EXCEPT (" + sqlJoin(s.Columns, ", ") + ")" }
 
 func (s *StarModifierReplaceItem) SQL() string { return s.Expr.SQL() + " AS " + s.Name.SQL() }
 
@@ -547,7 +547,7 @@ func (r *ReplaceFieldsExpr) SQL() string {
 func (n *WithExprVar) SQL() string { return n.Name.SQL() + " AS " + n.Expr.SQL() }
 
 func (w *WithExpr) SQL() string {
-	return "WITH(" + sqlJoin(w.Vars, ", ") + ", " + w.Expr.SQL() + ")"
+	return "WITH(" + sqlJoin(w.Vars, ", ") + strOpt(len(w.Vars) > 0, ", ") + w.Expr.SQL() + ")"
 }
 
 func (c *CastExpr) SQL() string {
@@ -819,7 +819,7 @@ func (c *CreateSequence) SQL() string {
 	return "CREATE SEQUENCE " +
 		strOpt(c.IfNotExists, "IF NOT EXISTS ") +
 		c.Name.SQL() +
-		strOpt(len(c.Params) > 0, " "+sqlJoin(c.Params, "")) +
+		strOpt(len(c.Params) > 0, " "+sqlJoin(c.Params, " ")) +
 		sqlOpt(" ", c.Options, "")
 }
 
